@@ -32,7 +32,8 @@ Fixpoint c04_walk (tr : list slabel) (started cancelled marked : list string) : 
       && c04_walk r (id :: started) cancelled marked
     | LUser (HCancel _ _ id) ROk => c04_walk r started (id :: cancelled) marked
     | LCall (CMarkDisp id) f _ x =>
-      let took_effect := match f, x with FNone, RRes ROk => true | FAfter, _ => true | _, _ => false end in
+      let took_effect := match f, x with FNone, RRes ROk => true | FAfter, _ => true
+                                       | FBefore, _ | FBeforeHook, _ | FNone, _ => false end in
       c04_walk r started cancelled (if took_effect then id :: marked else marked)
     | _ => c04_walk r started cancelled marked
     end
@@ -159,8 +160,10 @@ Fixpoint postponed_after_fetch (tr : list slabel) (fetched : option string) (acc
    GetById), then postponed, and the NEXT MarkAsDispatched may have taken effect (returned nil, or failed after
    taking effect). A MarkAsDispatched that failed without effect - or a dispatch given up while waiting for a
    worker - excuses nothing: the driver's Retry re-reads the task and must notice the postponement. *)
+(* FBeforeHook (the core call failed without effect, the wrapper still ran the timer hook) is FBefore as far as the
+   repository goes: no effect - here and in c04_walk's took_effect it falls under the last clause *)
 Definition markdisp_may_take_effect (f : fault) (r : cret) : bool :=
-  match f, r with FNone, RRes ROk => true | FAfter, _ => true | _, _ => false end.
+  match f, r with FNone, RRes ROk => true | FAfter, _ => true | FBefore, _ | FBeforeHook, _ | FNone, _ => false end.
 Fixpoint excused_postponements (tr : list slabel) (win : option string) (pend acc : list string) : list string :=
   match tr with
   | [] => acc
